@@ -1,10 +1,12 @@
 package cafs
 
 import (
+	"bytes"
 	"context"
 	"errors"
 	"fmt"
 	"io"
+	"io/ioutil"
 	"runtime"
 	"strings"
 	"sync"
@@ -239,7 +241,7 @@ func (r *chunkReader) WriteTo(writer io.Writer) (n int64, err error) {
 		wg.Add(1)
 		i := int64(index) * int64(r.leafSize-r.truncation)
 		concurrencyControl <- struct{}{}
-		go func(writeAt int64, writer io.WriterAt, key Key, cafs storage.Store, wg *sync.WaitGroup) {
+		go func(index int, writeAt int64, writer io.WriterAt, key Key, cafs storage.Store, wg *sync.WaitGroup) {
 			defer func() {
 				<-concurrencyControl
 				wg.Done()
@@ -249,18 +251,37 @@ func (r *chunkReader) WriteTo(writer io.Writer) (n int64, err error) {
 				errC <- err
 				return
 			}
+			var leafReader io.Reader = rdr
+			if r.withVerifyHash {
+				// verify the leaf before any of its bytes reaches the destination,
+				// following the checksumming scheme adopted by the writer (see readLeafFunc)
+				leaf, e := ioutil.ReadAll(rdr)
+				if e != nil {
+					errC <- e
+					return
+				}
+				offset, isLast := index+1, false
+				if index+1 == len(r.keys) && uint32(len(leaf)) != r.leafSize {
+					offset, isLast = index, true
+				}
+				if e = r.verifyHash(key, leaf, offset, isLast); e != nil {
+					errC <- e
+					return
+				}
+				leafReader = bytes.NewReader(leaf)
+			}
 			w := &cafsWriterAt{
 				w:      writer,
 				offset: writeAt,
 			}
 			// TODO(fred): nice - io.CopyBuffer is probably better to get the copy working buffer aligned to leaf buffers
-			written, err := io.Copy(w, rdr) // io.WriteAt is expected to be thread safe.
+			written, err := io.Copy(w, leafReader) // io.WriteAt is expected to be thread safe.
 			if err != nil {
 				errC <- err
 				return
 			}
 			writtenC <- written
-		}(i, w, key, r.fs, &wg)
+		}(index, i, w, key, r.fs, &wg)
 	}
 	var count int
 	var written int64
